@@ -553,6 +553,7 @@ pub fn main(opts: &Opts) {
 
     for c in &cases {
         let d = c.descr();
+        progress(&d);
         let o = if c.runs.iter().any(|r| r.1) {
             match run_case_realtime(c) {
                 Some(o) => {
@@ -579,6 +580,7 @@ pub fn main(opts: &Opts) {
         if o.exit_err {
             sink.direct(&d, "violation exit-with-error".into());
         }
+        progress_idle();
         sink.corr(&d, format!("daemon run {cfg} {}", c.model_args()), o.line());
         sink.spec(
             &d,
